@@ -854,3 +854,33 @@ case("c20-refactor-catch-exception", "C20", "refactor", [(EX_, """            ex
                     f"Cannot compare""", """            except Exception as e:
                 raise ExpressionError(
                     f"Cannot compare""")])
+case("c12-refactor-fetch-then-trim", "C12", "refactor", [("src/stabilize/events/replay.py", """        if as_of_sequence is not None:
+            # Get events up to the specified sequence
+            events = [
+                e
+                for e in self._event_store.get_events_for_workflow(workflow_id, start_sequence)
+                if e.sequence <= as_of_sequence
+            ]
+        else:
+            events = self._event_store.get_events_for_workflow(workflow_id, start_sequence)
+""", """        events = self._event_store.get_events_for_workflow(workflow_id, start_sequence)
+        if as_of_sequence is not None:
+            events = [e for e in events if e.sequence <= as_of_sequence]
+""")])
+case("c12-cut-zero-is-no-cut", "C12", "mutant", [("src/stabilize/events/replay.py", """        if as_of_sequence is not None:
+            # Get events up to the specified sequence""", """        if as_of_sequence:
+            # Get events up to the specified sequence""")], "C12.R3")
+case("c10-before-stage-guard-removed", "C10", "mutant", [(REC_, """                elif not_started_tasks and not self._before_stages_complete(stage, full_workflow):""", """                elif not_started_tasks and stage.start_time is None:""")], "C10.R6")
+case("c10-before-complete-disagrees", "C10", "mutant", [(REC_, """            child.status in CONTINUABLE_STATUSES
+            for child in workflow.stages""", """            child.status.is_complete
+            for child in workflow.stages""")], "C10.R6")
+
+# ---------------------------------------------------------------- seeded changes produced by independent agents
+# (each /verif/seeded/<id>/patch.diff compiles, passes the repository's test suite and breaks the property named by
+# its directory; see seeded/<id>/meta.json). They are permanent regression cases for the checkers.
+import os as _os
+
+_SEED_DIR = _os.path.join(_os.path.dirname(_os.path.dirname(_os.path.abspath(__file__))), "seeded")
+for _d in sorted(_os.listdir(_SEED_DIR)) if _os.path.isdir(_SEED_DIR) else []:
+    if _os.path.exists(_os.path.join(_SEED_DIR, _d, "patch.diff")):
+        case(f"seed-{_d}", _d.split("-")[0].upper(), "mutant", [], None, patch=f"seeded/{_d}/patch.diff")
